@@ -105,6 +105,24 @@ type Op struct {
 	Cache  string        `json:"cache,omitempty"`
 	Frac   float64       `json:"frac,omitempty"`
 	Thr    int64         `json:"thr,omitempty"` // put: retention threshold (unix) in force, 0 = none
+	// sub-second parts of From/Until (nanoseconds, 0..999999999): direct callers of the storage, and `until=now`
+	// style arguments, carry them; the HTTP driver ignores them (Unix-second parameters cannot)
+	FromNs  int64 `json:"from_ns,omitempty"`
+	UntilNs int64 `json:"until_ns,omitempty"`
+}
+
+// TN is T with a sub-second part.
+func TN(unix, ns int64) time.Time {
+	return T(unix).Add(time.Duration(ns))
+}
+
+// CeilUntil is the whole-second end that covers the same 10 s slots as (Until, UntilNs): the model works in whole
+// seconds and slot boundaries are whole seconds, so a positive sub-second part is one more second for rounding.
+func (op Op) CeilUntil() int64 {
+	if op.UntilNs > 0 {
+		return op.Until + 1
+	}
+	return op.Until
 }
 
 type GetDump struct {
@@ -160,7 +178,7 @@ func (st *Store) apply(op Op) (res OpResult) {
 			st.Cfg.Retention = 0
 		}
 		err = st.S.Put(&storage.PutInput{
-			StartTime: T(op.From), EndTime: T(op.Until), Key: key, Val: t,
+			StartTime: TN(op.From, op.FromNs), EndTime: TN(op.Until, op.UntilNs), Key: key, Val: t,
 			SpyName: op.Spy, SampleRate: op.Rate, Units: op.Units, AggregationType: op.Agg,
 		})
 		if err != nil {
@@ -171,7 +189,7 @@ func (st *Store) apply(op Op) (res OpResult) {
 		if err != nil {
 			return OpResult{Err: err.Error()}
 		}
-		out, err := st.S.Get(&storage.GetInput{StartTime: T(op.From), EndTime: T(op.Until), Key: key})
+		out, err := st.S.Get(&storage.GetInput{StartTime: TN(op.From, op.FromNs), EndTime: TN(op.Until, op.UntilNs), Key: key})
 		if err != nil {
 			return OpResult{Err: err.Error()}
 		}
